@@ -459,3 +459,58 @@ fn received_transaction_keeps_hash_and_signature_verdict_on_the_next_hop() {
         if honest_numbering && !verdict_first { witness(format!("round {}: a transaction signed over outputs numbered by position does not verify after generate()", round)); }
     }
 }
+
+/// C02: no transaction is accepted that pays out more than it consumes, for amount vectors near 2^63 / 2^64 too: two saturated sums compare equal
+#[tokio::test]
+#[serial_test::serial]
+async fn saturated_sums_never_pass_for_equal() {
+    #[allow(unused_imports)] use crate::core::consensus::slip::Slip;
+    #[allow(unused_imports)] use crate::core::consensus::transaction::Transaction;
+    use crate::core::defs::UtxoSet;
+    use crate::core::util::crypto::generate_keys;
+    use crate::core::util::test::test_manager::test::TestManager;
+
+    let t = TestManager::default();
+    let blockchain = t.blockchain_lock.read().await;
+    let (public_key, private_key) = generate_keys();
+    const HALF: u64 = 1 << 63;
+
+    // the transaction spends the given two outputs of block 1 and creates three outputs of 2^63
+    let build = |input_amounts: [u64; 2]| -> (Transaction, UtxoSet) {
+        let mut utxoset: UtxoSet = Default::default();
+        let mut tx = Transaction::default();
+        for (ordinal, amount) in input_amounts.iter().enumerate() {
+            let mut input = Slip::default();
+            input.public_key = public_key;
+            input.amount = *amount;
+            input.block_id = 1;
+            input.tx_ordinal = ordinal as u64;
+            input.generate_utxoset_key();
+            utxoset.insert(input.utxoset_key, true);
+            tx.add_from_slip(input);
+        }
+        for _ in 0..3 {
+            let mut output = Slip::default();
+            output.public_key = public_key;
+            output.amount = HALF;
+            tx.add_to_slip(output);
+        }
+        tx.sign(&private_key);
+        tx.generate(&public_key, 0, 2);
+        (tx, utxoset)
+    };
+
+    // control : inputs worth 2^64 - 2 in all, outputs worth 3 * 2^63 : refused
+    let (control, utxoset) = build([HALF, HALF - 2]);
+    assert_eq!(control.total_in, u64::MAX - 1);
+    assert!(!control.validate(&utxoset, &blockchain, true));
+
+    // inputs worth 2^64 - 1 in all (a supply that still fits 64 bits), the same outputs
+    let (tx, utxoset) = build([HALF, HALF - 1]);
+    let consumed: u128 = tx.from.iter().map(|slip| slip.amount as u128).sum();
+    let paid_out: u128 = tx.to.iter().map(|slip| slip.amount as u128).sum();
+    assert_eq!(consumed, u64::MAX as u128);
+    assert_eq!(paid_out, 3 * (HALF as u128));
+    let accepted = tx.validate(&utxoset, &blockchain, true);
+    if !(!accepted || paid_out <= consumed) { witness(format!("Transaction::validate accepted a transaction that consumes {} nolan and pays out {} nolan: the output sum saturates at 2^64 - 1 (total_out {}), the input sum is 2^64 - 1 as well (total_in {}), so total_out > total_in is false and {} nolan are created", consumed, paid_out, tx.total_out, tx.total_in, paid_out - consumed)); }
+}
